@@ -224,6 +224,8 @@ def project(pid, op, group, canon, ctx):
             return " ".join(sorted(re.findall(r"(\d+:\d+)\[", res)))
         if cmd == "inv":
             return "~" + res  # the index / pool / storage consistency check of the hook
+        if cmd in ("qa", "qe", "qc", "qn", "qs") and len(op.split()) > 1 and op.split()[1] in ctx.get("cbq", ()):
+            return res  # the new handles of a batch creation, read through the query the call returned (Entity, EntityAt, Count)
         return None
     if pid == "C03":
         if cmd == "qall":
@@ -392,6 +394,8 @@ def compare(pid, ops, impl_groups, model_groups):
             m = re.match(r"= ok q(\d+)", gm[0])
             if m:
                 ctx.setdefault("bq", set()).add(m.group(1))
+                if cmd == "bld":
+                    ctx.setdefault("cbq", set()).add(m.group(1))  # the query a batch creation hands its new handles out through
         ci.issue(created_handles(op, gi[0]))
         cm.issue(created_handles(op, gm[0]))
         pi = project(pid, op, gi, ci, ctx)
